@@ -352,6 +352,13 @@ def put_broadcast(ctx, akind, vkind, cast, inplace, form):
     oks = [same(ctx, res, Ref(dims, labels, exp))]
     if not inplace:
         oks.append(same(ctx, a, ref, check_kind=akind))
+    # reading back through the same (paired) index returns what was written
+    rkw = {'indexing': 'position'} if form != 'labels' else {}
+    rb = ctx.call(lambda: res.take(idx, broadcast=True, **rkw))
+    if rb[0] != 'ok' or not hasattr(rb[1], 'values'):
+        oks.append(False)
+    else:
+        oks.append(ctx.eqlist(ctx.flat(rb[1].values.tolist()), vs))
     return ctx.done(ctx.AND(*oks), [ctx.observe(res), ctx.observe(a)], inplace=True)
 
 
